@@ -1,13 +1,15 @@
 #!/opt/veriftools/pyvenv/bin/python
 import json, sys, glob, jsonschema
+import os
+HERE = os.path.dirname(os.path.abspath(__file__))
 es = json.load(open('/root/.vp/EVIDENCE.schema.json'))
 ms = json.load(open('/root/.vp/MANIFEST.schema.json'))
 ok = True
 try:
-    m = json.load(open('/verif/MANIFEST.json')); jsonschema.validate(m, ms); print('MANIFEST ok,', len(m['checks']), 'checks')
+    m = json.load(open(os.path.join(HERE, 'MANIFEST.json'))); jsonschema.validate(m, ms); print('MANIFEST ok,', len(m['checks']), 'checks')
 except Exception as e:
     ok = False; print('MANIFEST invalid:', e)
-for f in sorted(glob.glob('/verif/evidence/*.json')):
+for f in sorted(glob.glob(os.path.join(HERE, 'evidence', '*.json'))):
     try:
         jsonschema.validate(json.load(open(f)), es); print(f, 'ok')
     except Exception as e:
